@@ -103,7 +103,7 @@ class Leg:
 
 
 def load_known() -> dict:
-    p = os.path.join(ROOT, "known_findings.json")
+    p = os.environ.get("VERIF_KNOWN") or os.path.join(ROOT, "known_findings.json")  # override: trying out proposed entries
     if not os.path.exists(p):
         return {"findings": [], "fixed": []}
     with open(p) as f:
